@@ -56,6 +56,8 @@ type Options struct {
 	// DelegatorAcct, if > 0, makes dev account number DelegatorAcct-1 the "delegator contract" of the staker
 	// (params key delegator-contract-address): that account may call staker.addDelegation.
 	DelegatorAcct int
+	// Finality puts the FINALITY fork at this height (0 = from genesis).
+	Finality uint32
 	// HayabusaTP is thor.Config.HayabusaTP (transition period in blocks); 0 keeps the default of this simulator (0).
 	HayabusaTP uint32
 	// Hayabusa, with PoS, puts the HAYABUSA fork at this height instead of 0.
@@ -164,6 +166,7 @@ func NewNet(o Options) *Net {
 		o.EpochLength = 3
 	}
 	fc := &thor.ForkConfig{} // every fork at 0
+	fc.FINALITY = o.Finality
 	if !o.PoS {
 		fc.HAYABUSA = math.MaxUint32
 	} else if o.Hayabusa != 0 {
